@@ -207,6 +207,7 @@ End Deduping.
 Inductive updk :=
 | UNone                          (* population_update=None: accumulate *)
 | ULast (n : nat)                (* selectors.Last(n)     : regularized evolution *)
+| ULastStep (a b : nat)          (* selectors.Last(lambda step: a + step % b) : a size schedule *)
 | UTop (n : nat)                 (* selectors.Top(n)      : hill climb (stable, by fitness, descending) *)
 | UTopGen                        (* Top(1, cluster=True, key=generation_id) >> speciate : NEAT keeps the newest generation *)
 | UTable (t : list (list Z)).    (* recorded: at step s the new population is the individuals with these proposal ids *)
@@ -231,6 +232,7 @@ Definition apply_upd (u : updk) (pop : list dna) (step : nat) : list dna :=
   match u with
   | UNone => pop
   | ULast n => skipn (length pop - n) pop
+  | ULastStep a b => skipn (length pop - (a + step mod b)) pop
   | UTop n => firstn n (sort_desc pop)
   | UTopGen => let mx := fold_left Z.max (map gen_id pop) 0%Z in filter (fun d => (gen_id d =? mx)%Z) pop
   | UTable t => flat_map (find_pid pop) (nth step t [])
@@ -441,7 +443,7 @@ End Run.
 (* wire format
    case  ::= (alg m (reward ...) (event ...))
    alg   ::= (0) | (1 (draw ...)) | (2 alg hashmod auto maxdup maxatt) | (3 alg (size?) upd ((child ...) ...))
-   upd   ::= (0) | (1 n) | (2 n) | (3) | (4 ((pid ...) ...))
+   upd   ::= (0) | (1 n) | (2 n) | (3) | (4 ((pid ...) ...)) | (5 a b)
    out   ::= (snapshot ...)            one per crash point (before each event, and after the last)
    snapshot ::= (live recovered live_continuation recovered_continuation (recovered_with_undelivered_reward?))
    obs   ::= (np nf (dna ...) ((key ((reward?) ...)) ...) (extra ...) (obs ...))
@@ -465,6 +467,7 @@ Definition d_upd (t : tr) : option updk :=
   | L [I 2; n] => do n' <- dnat n; Some (UTop n')
   | L [I 3] => Some UTopGen
   | L [I 4; rows] => do r <- dlist (dlist dZ) rows; Some (UTable r)
+  | L [I 5; a; b] => do a' <- dnat a; do b' <- dnat b; Some (ULastStep a' b')
   | _ => None
   end.
 
